@@ -84,10 +84,18 @@ def cases(tier, seed):
             for drive in ("field", "current"):
                 for thermal in (0, 2):
                     out.append(dict(fam="real", N=Nr, k=k, drive=drive, thermal=thermal))
+    out += _prior_cases()
     return out
 
 
 # ---------------------------------------------------------------------------------------------
+def _prior_cases():
+    out = []
+    for N, k, probes, scr in ((3, 1, 2, True), (3, 2, 0, False), (5, 2, 2, True), (5, 6, 2, False), (5, 5, 3, True), (6, 3, 2, True)):
+        out.append(dict(fam="scripted", N=N, k=k, thermal=0, probes=probes, screening=scr, devs=[], prior=True))
+    return out
+
+
 def _records_concat(frames):
     from ..core import LibraryOutputError
 
@@ -172,6 +180,19 @@ def run_scripted(case):
     def hook(stage, j, state, rs):
         seen.append((stage, int(state["step"]) % k, int(rs.step)))
 
+    if case.get("prior"):
+        # the output path has a history in this process: an earlier run with other (twice as long) time steps and the same number of
+        # steps and frames was written to it, loaded and looked at, then the file was removed by the user before this run
+        import os
+
+        opts0 = tdgl.SolverOptions(solve_time=2 * T, skip_time=0.0, dt_init=2 * DT0, dt_max=1.0, save_every=k, output_file="out.h5", include_screening=scr, progress_interval=10**9)
+        sol0 = drivers.make_scripted_solver(dev, opts0, [2 * DT0] * (N0 + 4), 2 * DT0).solve()
+        if sol0 is not None:
+            _ = (np.asarray(sol0.times), sol0.dynamics.dt)
+            again = tdgl.Solution.from_hdf5(sol0.path)
+            _ = (np.asarray(again.times), again.dynamics.dt)
+            os.remove(sol0.path)
+        res.count("runs_to_a_path_used_before")
     solver = drivers.make_scripted_solver(dev, opts, script, DT0, hook=hook)
     sol = None
     try:
